@@ -1609,8 +1609,8 @@ def c11_runner(P, exe, model_ok, rng, tier, replay=None):
 register("C11", gen=gen_pool, runner=c11_runner, oracles=[oracle.c11], cause=oracle.c11_cause, watchdog=8,
          nontrivial=lambda si: any(c.cmd == "pool" and int(c.toks[1]) >= 2 for c in si.calls) or any(c.cmd == "blocks" for c in si.calls),
          tags=pool_tags, sections={"blocks", "pool_done", "pause_paused", "resume_paused", "resize_size", "stop_stopped", "grid"} | {"run%d" % i for i in range(12)} | {"run%d_once" % i for i in range(12)},
-         lean_modules=["FsModel.Pool5", "FsProofs.Properties.C11Spurious", "FsProofs.Properties.ShapesC11", "FsProofs.Properties.C11"],
-         theorems=["Fs.C11.invariant5", "Fs.C11.exactly_once5", "Fs.C11.at_most_once_in_flight5", "Fs.C11.no_exec_outside_run5", "Fs.C11.no_stuck_state5", "Fs.C11.terminates5", "Fs.C11.no_infinite_run5", "Fs.C11.reaches_finished5", "Fs.C11.between_calls5", "Fs.C11.no_stranded_flag5", "Fs.C11.exit_only_when_flag_clear5", "Fs.C11.pause_returns_all_parked", "Fs.C11.pause_ends_only_by_resume", "Fs.C11.parked_stays5", "Fs.C11.leaves_only_when_cleared5", "Fs.C11.pauseReq_cleared_by_resume5", "Fs.C11.old_pause_hangs", "Fs.Shapes.source_shape_C11", "Fs.C11.blocks_exact", "Fs.C11.blocks_empty", "Fs.C11.index_in_unique_block", "Fs.C11.source_notifies_under_mutex",
+         lean_modules=["FsProofs.Properties.C11PerIndex", "FsModel.Pool5", "FsProofs.Properties.C11Spurious", "FsProofs.Properties.ShapesC11", "FsProofs.Properties.C11"],
+         theorems=["Fs.C11.run_blocks_per_index", "Fs.C11.run_blocks_total", "Fs.C11.run_blocks_call_returns", "Fs.C11.execs_over_call", "Fs.C11.want_over_call", "Fs.C11.invariant5", "Fs.C11.exactly_once5", "Fs.C11.at_most_once_in_flight5", "Fs.C11.no_exec_outside_run5", "Fs.C11.no_stuck_state5", "Fs.C11.terminates5", "Fs.C11.no_infinite_run5", "Fs.C11.reaches_finished5", "Fs.C11.between_calls5", "Fs.C11.no_stranded_flag5", "Fs.C11.exit_only_when_flag_clear5", "Fs.C11.pause_returns_all_parked", "Fs.C11.pause_ends_only_by_resume", "Fs.C11.parked_stays5", "Fs.C11.leaves_only_when_cleared5", "Fs.C11.pauseReq_cleared_by_resume5", "Fs.C11.old_pause_hangs", "Fs.Shapes.source_shape_C11", "Fs.C11.blocks_exact", "Fs.C11.blocks_empty", "Fs.C11.index_in_unique_block", "Fs.C11.source_notifies_under_mutex",
                    "Fs.C11.source_publication", "Fs.C11.source_rejects_lost_wakeup_schedule", "Fs.C11.no_stuck_state", "Fs.Hb.publication_iff",
                    "Fs.C11.source_protocol_shape", "Fs.C11.exactly_once", "Fs.C11.no_stuck_state4", "Fs.C11.no_infinite_run",
                    "Fs.Pool4.inv_step", "Fs.Pool4.at_most_once_in_flight", "Fs.Pool4.no_stranded_flag", "Fs.Pool4.between_calls", "Fs.Pool4.terminates"],
@@ -1619,7 +1619,7 @@ register("C11", gen=gen_pool, runner=c11_runner, oracles=[oracle.c11], cause=ora
                        "delay injection explores interleavings by timing, it cannot force every schedule; resize/stop/destruction are exercised but not part of the protocol model",
                        "memory orders and 'notify under the mutex' are regenerated from thread_pool_inl.hpp by translate.py"])
 _lvl("C11", "proof",
-     "Theorems: blocks_exact / index_in_unique_block (for every range, pool size and minimum size the blocks of the executed function mkBlocks are at most pool-size many, non-empty, contiguous, and every index lies in exactly one); protocol model Fs.Pool4 (N workers, per-worker job flags, mutex, condition variable, stopped flag, caller programs of run_blocks / pause / resume / stop / resize as the library issues them, every interleaving): exactly_once (between API calls every worker has run its block exactly once per run_blocks call that gave it one; at_most_once_in_flight inside a call), no_stuck_state4 (a state whose caller has not finished always has an enabled thread: no lost wake-up, no deadlock, also through stop / join / resize / destruction while paused), no_infinite_run / terminates (a lexicographic measure decreases at every step: every fair execution terminates), no_stranded_flag, between_calls; the model transcribes the source's steps, which are re-checked on every run (source_protocol_shape: pause waits, publishes, then spins until all workers are counted; resume notifies under the mutex then waits; run_tasks resumes when paused; run_blocks waits; stop sets the flag, resumes if paused, joins; the worker tests stopped, then the flag, runs, clears; resize stops then resets - decide over facts regenerated from thread_pool_inl.hpp; source_notifies_under_mutex); source_publication (release/acquire orders regenerated from the source give happens-before for job data and results). The earlier 3-op model (no_stuck_state) is kept. Real C++ data races and spurious wake-ups are outside the model: covered by the TSan / schedule-injection runs only (partial). SPURIOUS WAKE-UPS (FsModel/Pool5.lean, C11Spurious.lean): Fs.Pool5 is the protocol model of the repaired code WITH spurious wake-ups - a waiting worker may leave the wait without notification (ghost budget spur i, the fairness assumption 'finitely many per run', used only for termination), re-acquires the mutex and re-tests m_pause_requested; pause() sets the request and resume() clears it in the critical section of notify_all. Re-proved for every program, pool size and budget: the invariant, exactly_once5, at_most_once_in_flight5, no_exec_outside_run5, no_stuck_state5 (progress never relies on a spurious wake-up), terminates5 / no_infinite_run5 (measure includes the budgets), reaches_finished5, between_calls5, no_stranded_flag5; pause_returns_all_parked / pause_ends_only_by_resume / leaves_only_when_cleared5 (pause() returns only with every worker parked and counted, and a worker leaves the pause job only after resume() cleared the request). old_pause_hangs: for the OLD protocol (wait without predicate) plus the spurious rule a 14-step schedule with ONE spurious wake-up reaches a state where pause() spins with no thread able to step and no finished state reachable (decide) - the formal counterpart of finding D16. Asking what the earlier model (Fs.Pool4: a condition wait returns only when notified) hid led to finding D16 (the pause job waited without a predicate: a spurious wake-up made pause() spin forever), reproduced on the real code through a guarded injection point and repaired in /repo (the pause job now waits while m_pause_requested); the generators arm spurious returns in 30% of the pool programs and the translator requires the predicate loop.",
+     "Theorems: blocks_exact / index_in_unique_block (for every range, pool size and minimum size the blocks of the executed function mkBlocks are at most pool-size many, non-empty, contiguous, and every index lies in exactly one); protocol model Fs.Pool4 (N workers, per-worker job flags, mutex, condition variable, stopped flag, caller programs of run_blocks / pause / resume / stop / resize as the library issues them, every interleaving): exactly_once (between API calls every worker has run its block exactly once per run_blocks call that gave it one; at_most_once_in_flight inside a call), no_stuck_state4 (a state whose caller has not finished always has an enabled thread: no lost wake-up, no deadlock, also through stop / join / resize / destruction while paused), no_infinite_run / terminates (a lexicographic measure decreases at every step: every fair execution terminates), no_stranded_flag, between_calls; the model transcribes the source's steps, which are re-checked on every run (source_protocol_shape: pause waits, publishes, then spins until all workers are counted; resume notifies under the mutex then waits; run_tasks resumes when paused; run_blocks waits; stop sets the flag, resumes if paused, joins; the worker tests stopped, then the flag, runs, clears; resize stops then resets - decide over facts regenerated from thread_pool_inl.hpp; source_notifies_under_mutex); source_publication (release/acquire orders regenerated from the source give happens-before for job data and results). The earlier 3-op model (no_stuck_state) is kept. Real C++ data races and spurious wake-ups are outside the model: covered by the TSan / schedule-injection runs only (partial). PER INDEX (C11PerIndex.lean): run_blocks_per_index / run_blocks_total compose the two halves - for one run_blocks(first, last, min_size) call on a pool between calls (any accepted history before it, any spurious-wake-up budgets): the call returns, and when it has returned every index of the range lies in the block of exactly one worker k < nb <= N whose execution count grew by exactly one, workers without a block executed nothing, the blocks are contiguous and stay inside the range (the protocol model counts executions per worker; 'worker k runs the callback once over its block' is the reading of the block job). SPURIOUS WAKE-UPS (FsModel/Pool5.lean, C11Spurious.lean): Fs.Pool5 is the protocol model of the repaired code WITH spurious wake-ups - a waiting worker may leave the wait without notification (ghost budget spur i, the fairness assumption 'finitely many per run', used only for termination), re-acquires the mutex and re-tests m_pause_requested; pause() sets the request and resume() clears it in the critical section of notify_all. Re-proved for every program, pool size and budget: the invariant, exactly_once5, at_most_once_in_flight5, no_exec_outside_run5, no_stuck_state5 (progress never relies on a spurious wake-up), terminates5 / no_infinite_run5 (measure includes the budgets), reaches_finished5, between_calls5, no_stranded_flag5; pause_returns_all_parked / pause_ends_only_by_resume / leaves_only_when_cleared5 (pause() returns only with every worker parked and counted, and a worker leaves the pause job only after resume() cleared the request). old_pause_hangs: for the OLD protocol (wait without predicate) plus the spurious rule a 14-step schedule with ONE spurious wake-up reaches a state where pause() spins with no thread able to step and no finished state reachable (decide) - the formal counterpart of finding D16. Asking what the earlier model (Fs.Pool4: a condition wait returns only when notified) hid led to finding D16 (the pause job waited without a predicate: a spurious wake-up made pause() spin forever), reproduced on the real code through a guarded injection point and repaired in /repo (the pause job now waits while m_pause_requested); the generators arm spurious returns in 30% of the pool programs and the translator requires the predicate loop.",
      "Lean 4 inductive invariant + progress + well-founded termination over all interleavings (any N) + Nat arithmetic proofs + decide over translator-regenerated protocol shape and memory orders; correspondence: schedule-injection harness (guarded hooks) under ASan and TSan")
 
 
